@@ -73,15 +73,24 @@ def record_transpose():
 def record_codec():
     from kernpy.core.pitch_models import HumdrumPitchImporter, HumdrumPitchExporter
     recs = []
-    for l in range(7):
-        for a in range(-3, 4):
-            for o in range(-1, 10):
+    # ONE importer and ONE exporter object serve the whole sweep (a history of 539 x 3 calls on the same objects), ordered so
+    # that altered and natural spellings, high and low octaves alternate; a fresh pair is used for every third spelling
+    shared_imp, shared_ex = HumdrumPitchImporter(), HumdrumPitchExporter()
+    grid = [(l, a, o) for o in range(-1, 10) for a in (3, 0, -3, 1, 0, -1, 2, 0, -2) for l in range(7)]
+    seen = set()
+    cnt = 0
+    for (l, a, o) in grid:
+            if (l, a, o) in seen and a != 0:
+                continue
+            seen.add((l, a, o))
+            cnt += 1
+            if True:
                 s = spell(l, a, o)
                 r = {'op': 'codec', 'l': l, 'a': a, 'o': o, 'inp': cps(s)}
                 try:
-                    p = HumdrumPitchImporter().import_pitch(s)
+                    imp, ex = (HumdrumPitchImporter(), HumdrumPitchExporter()) if cnt % 3 == 0 else (shared_imp, shared_ex)
+                    p = imp.import_pitch(s)
                     r.update(name0=str(p.name), oct0=int(p.octave))
-                    ex = HumdrumPitchExporter()
                     for k in ('1', '2'):
                         ok, out = safe(ex.export_pitch, p)
                         r.update({'out' + k: txt(ok, out), 'name' + k: str(p.name), 'oct' + k: int(p.octave)})
